@@ -3,13 +3,11 @@ module govc
 go 1.23
 
 require (
-	github.com/cosmos/cosmos-proto v0.0.0
 	golang.org/x/tools v0.29.0
+	google.golang.org/protobuf v1.34.0
 )
 
 require (
 	golang.org/x/mod v0.22.0 // indirect
 	golang.org/x/sync v0.10.0 // indirect
 )
-
-replace github.com/cosmos/cosmos-proto => /repo
